@@ -185,4 +185,18 @@ example : anteHandle witnessState { forgedTx with infos := [{ pubkeyMatches := t
     .ok { witnessState.store with nonces := [((0, 1), 1)] } := by
   simp [anteHandle, anteNonces, Store.checkNonce, witnessState, forgedTx, witnessParams, alookup, aset, Tx.signers, dedupNat]
 
+/-- filter.go: addPSource — of the prices a validator sends for one deterministic source, each source
+round (detID) reaches the calculator at most once per round of the feeder, whether the repetition is
+inside one message or spread over several: the entries kept have pairwise different detIDs and none of
+them was in the validator's set before. (The calculator adds the sender's power once per entry it is
+given: `calcDetIDs`.) -/
+theorem C13_repeated_detid_counted_once (size : Nat) (set : List String) (ps : List PriceTD) :
+    ((filterDetIDs size set ps).2.map (·.detID)).Nodup ∧
+    (∀ q ∈ (filterDetIDs size set ps).2, q.detID ∉ set) :=
+  ⟨(filterDetIDs_spec size ps set).1, (filterDetIDs_spec size ps set).2.1⟩
+
+
+example : (filterDetIDs 5 [] [{ price := 7, decimal := 0, ts := 1, tsKind := 0, detID := "9" },
+    { price := 7, decimal := 0, ts := 1, tsKind := 0, detID := "9" }, { price := 8, decimal := 0, ts := 1, tsKind := 0, detID := "9" }]).2.length = 1 := by decide
+
 end ExoVerif.Oracle
